@@ -619,6 +619,17 @@ pub fn gen_feasible_with(t: &mut Tape, cfg: &GenCfg, n: usize, cones: Vec<ConeSp
 }
 
 /// strongly primal infeasible: zhat in int K*, A'zhat = 0, b'zhat = -1 ; dual feasible
+/// a projection step `orig - corr` that cancels to rounding level means "exactly zero": keeping the
+/// 1e-16 residue as a coefficient would make the planted certificate a near-certificate whose
+/// verdict legitimately depends on scaling (the problem becomes feasible with |x| ~ 1e16)
+fn snap_residue(diff: f64, orig: f64, corr: f64) -> f64 {
+    if diff.abs() <= 1e-12 * orig.abs().max(corr.abs()) {
+        0.0
+    } else {
+        diff
+    }
+}
+
 pub fn gen_primal_infeasible(t: &mut Tape, cfg: &GenCfg) -> ProblemSpec {
     let n = t.usize_in(1, cfg.nmax);
     let mut cones = gen_cones(t, cfg);
@@ -638,7 +649,8 @@ pub fn gen_primal_infeasible(t: &mut Tape, cfg: &GenCfg) -> ProblemSpec {
         let col: Vec<f64> = (0..m).map(|i| a[i][j]).collect();
         let f = dot(&col, &zh) / zz;
         for i in 0..m {
-            a[i][j] -= f * zh[i];
+            let (orig, corr) = (a[i][j], f * zh[i]);
+            a[i][j] = snap_residue(orig - corr, orig, corr);
         }
     }
     let b0: Vec<f64> = (0..m).map(|_| t.nice(1.5)).collect();
@@ -675,7 +687,8 @@ pub fn gen_dual_infeasible(t: &mut Tape, cfg: &GenCfg) -> ProblemSpec {
     for i in 0..m {
         let f = (dot(&a[i], &xh) + sh[i]) / xx;
         for j in 0..n {
-            a[i][j] -= f * xh[j];
+            let (orig, corr) = (a[i][j], f * xh[j]);
+            a[i][j] = snap_residue(orig - corr, orig, corr);
         }
     }
     // P = M'M with M xhat = 0
@@ -684,7 +697,8 @@ pub fn gen_dual_infeasible(t: &mut Tape, cfg: &GenCfg) -> ProblemSpec {
     for l in 0..r {
         let f = dot(&mm[l], &xh) / xx;
         for j in 0..n {
-            mm[l][j] -= f * xh[j];
+            let (orig, corr) = (mm[l][j], f * xh[j]);
+            mm[l][j] = snap_residue(orig - corr, orig, corr);
         }
     }
     let mut p = zeros(n, n);
